@@ -91,6 +91,48 @@ def durations():
     return cases, bad
 
 
+def duration_lexical():
+    """XML -> Python over the lexical space of the constrained xsd:duration (PT[nH][nM][n[.f]S]): the parsed value is the
+    exact rational value of the lexical form within the documented microsecond resolution, whatever the number of
+    fraction digits, leading zeros or absent components."""
+    from fractions import Fraction
+    rnd = random.Random(SEED + 11)
+    n = 1500 if tier() == 'quick' else 30000
+    cases, bad = 0, []
+    fracs = ['1', '5', '05', '001', '123456', '000001', '999999', '1234567', '0000001', '0000005', '9999995', '12345678',
+             '123456789', '010000000', '000000000', '500000000', '999999999999', '100000000000', '0000000000001']
+    ints = [None, '0', '1', '9', '00', '007', '59', '60', '61', '100', '3600', '86400', '99999']
+    forms = []
+    for h in (None, '0', '1', '25', '0001'):
+        for m in (None, '0', '5', '59', '90'):
+            for sec in ints:
+                for f in ([None] + fracs if sec is not None else [None]):
+                    forms.append((h, m, sec, f))
+    for _ in range(n):
+        digs = lambda k: ''.join(rnd.choice('0123456789') for _ in range(k))   # noqa: E731
+        forms.append((rnd.choice([None, digs(rnd.randrange(1, 5))]), rnd.choice([None, digs(rnd.randrange(1, 4))]),
+                      digs(rnd.randrange(1, 7)), rnd.choice([None, digs(rnd.randrange(1, 14))])))
+    for h, m, sec, f in forms:
+        if h is None and m is None and sec is None:
+            continue
+        cases += 1
+        text = 'PT' + (f'{h}H' if h is not None else '') + (f'{m}M' if m is not None else '') \
+               + ((sec + (f'.{f}' if f is not None else '') + 'S') if sec is not None else '')
+        exact = Fraction(int(h or 0) * 3600 + int(m or 0) * 60 + int(sec or 0)) + (Fraction(int(f), 10 ** len(f)) if f else 0)
+        try:
+            got = iso.parse_duration(text)
+        except Exception as exc:  # noqa: BLE001
+            bad.append({'key': 'duration-lexical-rejected', 'detail': f'{text!r}: {type(exc).__name__} {exc}'})
+            continue
+        # documented resolution: one microsecond (timedelta); beyond 2^32 s the float result itself is coarser
+        tol = Fraction(101, 100_000_000) + abs(exact) * Fraction(1, 2 ** 50)
+        if abs(Fraction(got) - exact) > tol:
+            bad.append({'key': 'duration-lexical-value', 'detail': f'{text!r} parsed as {got!r}, lexical value is {float(exact)!r}'})
+        if len(bad) > 8:
+            break
+    return cases, bad
+
+
 def datetimes():
     rnd = random.Random(SEED + 2)
     cases, bad = 0, []
@@ -165,6 +207,7 @@ if __name__ == '__main__':
     c = Collector()
     c.run('C18.decimal_enum', 'B', decimals,
           bound='sign x 1..18 digits x structured digit patterns (+ seeded random) x exponent -18..18')
+    c.run('C18.duration_lexical', 'B', duration_lexical, bound='all combinations of 5 hour x 5 minute x 13 second x 20 fraction lexical forms + seeded random digit strings (up to 13 fraction digits)')
     c.run('C18.duration_enum', 'B', durations, bound='boundary values + seeded random ints/decimals/floats below 1e12 s')
     c.run('C18.datetime_enum', 'B', datetimes, bound='11 years x 6 time zones x all 4 lexical forms x 9 second values + 13 illegal forms')
     c.run('C18.enum_int_lexical', 'B', enums_and_ints, bound='every member of every Enum class in pm_types; 5 illegal integer forms')
